@@ -3,6 +3,7 @@ package simrt
 import (
 	"cmp"
 	"sort"
+	"sync/atomic"
 )
 
 func Bind0(f func()) func()                         { return f }
@@ -27,3 +28,11 @@ func SortedKeys[K cmp.Ordered, V any](m map[K]V) []K {
 	sort.Slice(keys, func(i, j int) bool { return keys[i] < keys[j] })
 	return keys
 }
+
+var stampCtr atomic.Uint64
+
+// Stamp returns the next value of a global event sequence counter (for ordering recorded history events).
+func Stamp() uint64 { return stampCtr.Add(1) }
+
+// ResetStamp restarts the counter for a new run.
+func ResetStamp() { stampCtr.Store(0) }
